@@ -51,7 +51,7 @@ def _gen_module(ctx):
             f"GenRows == DefaultRows \\cup {{{', '.join(rows)}}}\n====\n")
 
 
-def _build(sc, rows, shared=False):
+def _build(sc, rows, shared=False, keep=False):
     """The torch SDE of a scenario, its AdjointSDE (as adjoint.py builds it) and the augmented state for `rows`.
     shared: the SDE also supplies `f_and_g`, computing drift and diffusion from ONE shared intermediate autograd node
     that saves tensors (as a network with a shared hidden layer does, or the library's own logqp wrapper): the
@@ -93,7 +93,25 @@ def _build(sc, rows, shared=False):
             return [self.A[0, 0], self.A[0, 1], self.A[1, 0], self.A[1, 1], self.unused[0], self.unused[1],
                     self.sub.c[0], self.sub.c[1]]
 
-    if shared:
+    if keep:
+        class KeepSDE(ParamSDE):
+            """a user who holds on to what the drift / diffusion returned (a table of precomputed values, a cache):
+            the library must not write into those tensors"""
+            def __init__(self):
+                super().__init__()
+                self.returned = []
+
+            def f(self, t, y):
+                out = ParamSDE.f(self, t, y)
+                self.returned.append(("f", out, out.detach().clone()))
+                return out
+
+            def g(self, t, y):
+                out = ParamSDE.g(self, t, y)
+                self.returned.append(("g", out, out.detach().clone()))
+                return out
+        sde = KeepSDE()
+    elif shared:
         class SharedSDE(ParamSDE):
             def f_and_g(self, t, y):
                 z = y * torch.ones_like(y)          # exact; the multiplication saves its operands for backward
@@ -193,6 +211,17 @@ def check_group(group):
             add(fn, tag + "/no_grad", o.shape == y_aug.shape and _close(o, expect[WHICH[fn]]),
                 f"got {o.flatten().tolist()} want {expect[WHICH[fn]]}")
             add(fn, "no_graph", o.grad_fn is None and not o.requires_grad, "output carries a graph under no_grad")
+        # ---- the user keeps what drift and diffusion returned: evaluating the adjoint fields must not write into it
+        try:
+            sde_k, adj_k, _, _, y_aug_k = _build(sc0, rows, keep=True)
+            with torch.no_grad():
+                calls(adj_k, t, y_aug_k, v, v2, diag)
+            touched = sorted({name for name, out, snap in sde_k.returned if not torch.equal(out.detach(), snap)})
+            add("call", "user_tensors_untouched", not touched,
+                f"evaluating the adjoint fields modified, in place, the tensors returned by the user's {touched}: a drift "
+                f"that returns a stored tensor (a table of values) gives different results on every evaluation")
+        except Exception as e:
+            add("call", "exception", False, f"SDE keeping its returned tensors: {type(e).__name__}: {e}"[:300])
         # ---- the same SDE supplying f_and_g with a shared intermediate node: same prescribed quantities
         for mode in ("no_grad", "grad"):
             try:
